@@ -202,14 +202,15 @@ def norm(c):
   kind = c['kind']
   eps = c['epsilon']
   res = {}
+  fv = {'use_fast_variance': c.get('use_fast_variance', True)}
   if kind == 'layer':
-    mod = nn.LayerNorm(epsilon=eps, use_bias=c['use_bias'], use_scale=c['use_scale'], reduction_axes=tup(c['reduction_axes']), feature_axes=tup(c['feature_axes']), param_dtype=F64)
+    mod = nn.LayerNorm(epsilon=eps, **fv, use_bias=c['use_bias'], use_scale=c['use_scale'], reduction_axes=tup(c['reduction_axes']), feature_axes=tup(c['feature_axes']), param_dtype=F64)
   elif kind == 'rms':
-    mod = nn.RMSNorm(epsilon=eps, use_scale=c['use_scale'], reduction_axes=tup(c['reduction_axes']), feature_axes=tup(c['feature_axes']), param_dtype=F64)
+    mod = nn.RMSNorm(epsilon=eps, **fv, use_scale=c['use_scale'], reduction_axes=tup(c['reduction_axes']), feature_axes=tup(c['feature_axes']), param_dtype=F64)
   elif kind == 'group':
-    mod = nn.GroupNorm(num_groups=c.get('num_groups'), group_size=c.get('group_size'), epsilon=eps, use_bias=c['use_bias'], use_scale=c['use_scale'], param_dtype=F64)
+    mod = nn.GroupNorm(num_groups=c.get('num_groups'), group_size=c.get('group_size'), epsilon=eps, **fv, use_bias=c['use_bias'], use_scale=c['use_scale'], param_dtype=F64)
   elif kind == 'instance':
-    mod = nn.InstanceNorm(epsilon=eps, use_bias=c['use_bias'], use_scale=c['use_scale'], param_dtype=F64)
+    mod = nn.InstanceNorm(epsilon=eps, **fv, use_bias=c['use_bias'], use_scale=c['use_scale'], param_dtype=F64)
   else:
     mod = None
   if kind in ('layer', 'rms', 'group', 'instance'):
@@ -218,11 +219,11 @@ def norm(c):
     def nx():
       nf = x.shape[-1]
       if kind == 'layer':
-        m = nnx.LayerNorm(nf, epsilon=eps, use_bias=c['use_bias'], use_scale=c['use_scale'], reduction_axes=tup(c['reduction_axes']), feature_axes=tup(c['feature_axes']), param_dtype=F64, rngs=nnx.Rngs(0))
+        m = nnx.LayerNorm(nf, epsilon=eps, **fv, use_bias=c['use_bias'], use_scale=c['use_scale'], reduction_axes=tup(c['reduction_axes']), feature_axes=tup(c['feature_axes']), param_dtype=F64, rngs=nnx.Rngs(0))
       elif kind == 'rms':
-        m = nnx.RMSNorm(nf, epsilon=eps, use_scale=c['use_scale'], reduction_axes=tup(c['reduction_axes']), feature_axes=tup(c['feature_axes']), param_dtype=F64, rngs=nnx.Rngs(0))
+        m = nnx.RMSNorm(nf, epsilon=eps, **fv, use_scale=c['use_scale'], reduction_axes=tup(c['reduction_axes']), feature_axes=tup(c['feature_axes']), param_dtype=F64, rngs=nnx.Rngs(0))
       elif kind == 'group':
-        m = nnx.GroupNorm(nf, num_groups=c.get('num_groups'), group_size=c.get('group_size'), epsilon=eps, use_bias=c['use_bias'], use_scale=c['use_scale'], param_dtype=F64, rngs=nnx.Rngs(0))
+        m = nnx.GroupNorm(nf, num_groups=c.get('num_groups'), group_size=c.get('group_size'), epsilon=eps, **fv, use_bias=c['use_bias'], use_scale=c['use_scale'], param_dtype=F64, rngs=nnx.Rngs(0))
       else:
         raise NotImplementedError('no nnx.InstanceNorm')
       if scale is not None:
@@ -238,7 +239,7 @@ def norm(c):
   mean0, var0 = arr(c['mean']), arr(c['var'])
   x2 = arr(c['x2'])
   axis = c['axis']
-  bn = nn.BatchNorm(momentum=c['momentum'], epsilon=eps, use_bias=c['use_bias'], use_scale=c['use_scale'], axis=axis, param_dtype=F64)
+  bn = nn.BatchNorm(momentum=c['momentum'], epsilon=eps, **fv, use_bias=c['use_bias'], use_scale=c['use_scale'], axis=axis, param_dtype=F64)
 
   def li():
     variables = {'params': params, 'batch_stats': {'mean': mean0, 'var': var0}} if params else {'batch_stats': {'mean': mean0, 'var': var0}}
@@ -248,7 +249,7 @@ def norm(c):
   res['linen'] = safe(li)
 
   def nx():
-    m = nnx.BatchNorm(x.shape[axis], momentum=c['momentum'], epsilon=eps, use_bias=c['use_bias'], use_scale=c['use_scale'], axis=axis, param_dtype=F64, rngs=nnx.Rngs(0))
+    m = nnx.BatchNorm(x.shape[axis], momentum=c['momentum'], epsilon=eps, **fv, use_bias=c['use_bias'], use_scale=c['use_scale'], axis=axis, param_dtype=F64, rngs=nnx.Rngs(0))
     m.mean.value, m.var.value = mean0, var0
     if scale is not None:
       m.scale.value = scale
